@@ -102,8 +102,16 @@ class LogPublisher:
 
         @return: A L{Logger} without the given observer.
         """
+        # Compare the way addObserver / removeObserver do (identity or equality):
+        # an observer such as a bound method may have been unregistered and
+        # registered again while it was being called, which leaves an equal but
+        # not identical object in the list.
         errorPublisher = LogPublisher(
-            *(obs for obs in self._observers if obs is not observer)
+            *(
+                obs
+                for obs in self._observers
+                if not (obs is observer or obs == observer)
+            )
         )
         return Logger(observer=errorPublisher)
 
